@@ -185,17 +185,30 @@ pub fn matrix(expression: Expression) -> Expression {
                             let mut valid = true;
                             for expression in &expressions {
                                 match expression {
-                                    Expression::BooleanExpression(left, _, _) => match **left {
-                                        Expression::Cast(ref field, _)
-                                        | Expression::Field(ref field) => {
-                                            if lookup.contains_key(field) {
+                                    // NOTE: Only what the counting pass above accepted can become a
+                                    // cell, anything else keeps the whole conjunction out of the matrix.
+                                    Expression::BooleanExpression(left, _, right) => {
+                                        match (&**left, &**right) {
+                                            (Expression::Cast(field, _), Expression::Boolean(_))
+                                            | (Expression::Cast(field, _), Expression::Float(_))
+                                            | (Expression::Cast(field, _), Expression::Integer(_))
+                                            | (Expression::Cast(field, _), Expression::Null)
+                                            | (Expression::Field(field), Expression::Boolean(_))
+                                            | (Expression::Field(field), Expression::Float(_))
+                                            | (Expression::Field(field), Expression::Integer(_))
+                                            | (Expression::Field(field), Expression::Null) => {
+                                                if lookup.contains_key(field) {
+                                                    valid = false;
+                                                    break;
+                                                }
+                                                lookup.insert(field.clone(), expression.clone());
+                                            }
+                                            (_, _) => {
                                                 valid = false;
                                                 break;
                                             }
-                                            lookup.insert(field.clone(), expression.clone());
                                         }
-                                        _ => {}
-                                    },
+                                    }
                                     Expression::Nested(field, _)
                                     | Expression::Search(_, field, _) => {
                                         if lookup.contains_key(field) {
